@@ -104,6 +104,12 @@ func (d *badgerNodeDB) cleanMultipartLocked(removeNodes bool) error {
 		return nil
 	}
 
+	if lastFinalizedVersion, exists := d.meta.getLastFinalizedVersion(); exists && version <= lastFinalizedVersion {
+		// The restore has already been finalized (e.g. the process was interrupted right after
+		// finalization), so there is nothing to remove, only the multipart state needs clearing.
+		removeNodes = false
+	}
+
 	txn := d.db.NewTransactionAt(tsMetadata, false)
 	defer txn.Discard()
 
